@@ -68,10 +68,10 @@ func (complexShaperMyanmar) collectFeatures(plan *otShapePlanner) {
 	/* Do this before any lookups have been applied. */
 	map_.addGSUBPause(setupSyllablesMyanmar)
 
-	map_.enableFeature(ot.NewTag('l', 'o', 'c', 'l'))
+	map_.enableFeatureExt(ot.NewTag('l', 'o', 'c', 'l'), ffPerSyllable, 1)
 	/* The Indic specs do not require ccmp, but we apply it here since if
 	* there is a use of it, it's typically at the beginning. */
-	map_.enableFeature(ot.NewTag('c', 'c', 'm', 'p'))
+	map_.enableFeatureExt(ot.NewTag('c', 'c', 'm', 'p'), ffPerSyllable, 1)
 
 	map_.addGSUBPause(reorderMyanmar)
 
